@@ -18,6 +18,10 @@ for mp in sorted(glob.glob(os.path.join(verif, "seeded", "*", "meta.json"))):
     ch = []
     for k, v in (m.get("checks") or {}).items():
         ch.append("%s %s: %s" % (k, v.get("tier", ""), {0: "held (missed)", 1: "VIOLATION", 2: "inconclusive"}.get(v.get("exit"), v.get("exit"))))
+    if m.get("recheck"):
+        ch.append("final recheck %s: %s" % (m["recheck"].get("tier"), {0: "held (missed)", 1: "VIOLATION", 2: "inconclusive"}.get(m["recheck"].get("exit"))))
+    if cb.get("note"):
+        conf += " (" + cb["note"][:160] + ")"
     rows.append("| `%s` | %s | %s | %s | %s |" % (name, summ, when, conf, "; ".join(ch)))
 table = "| seed | change | needs, in order to manifest | confirmed (demo fails with / passes without, suite passes) | checks run against it |\n|---|---|---|---|---|\n" + "\n".join(rows)
 print(table)
